@@ -161,7 +161,9 @@ func main() {
 	for _, k := range corner() {
 		emit(k)
 	}
-	r := c.NewRng(c.Seed())
+	// common.NewRng(s) and NewRng(s+1) are the same stream shifted by one draw; re-seed from the
+	// first output so that neighbouring VERIF_SEED values give unrelated case streams
+	r := c.NewRng(c.NewRng(c.Seed()).U64())
 	for i := 0; i < *n; i++ {
 		emit(genCase(r.Fork()))
 	}
